@@ -199,25 +199,67 @@ def parse_tla_value(s):
     return val()
 
 
-def run_harness(cmd, jobs, wd, threads=12, timeout=1800, name="jobs"):
-    """writes jobs (list of dicts) as ndjson, runs `vh <cmd> jobs out threads`, returns list of results by id"""
-    jf = os.path.join(wd, name + ".ndjson")
-    of = os.path.join(wd, name + ".out.ndjson")
-    with open(jf, "w") as f:
-        for j in jobs:
-            f.write(json.dumps(j) + "\n")
+def run_harness(cmd, jobs, wd, threads=12, timeout=1800, name="jobs", isolate=False):
+    """writes jobs (list of dicts) as ndjson, runs `vh <cmd> jobs out threads`, returns list of results by id.
+    isolate: if the harness process dies (abort / resource exhaustion caused by the code under test) the batch is bisected;
+    a job that kills its process on its own gets the result {"died": rc, "tail": ..}"""
     t0 = time.time()
-    p = subprocess.run(["timeout", str(timeout), VH, cmd, jf, of, str(threads)], stdout=subprocess.PIPE,
-                       stderr=subprocess.STDOUT, text=True)
-    if p.returncode != 0:
-        raise ToolError("harness %s failed rc=%d: %s" % (cmd, p.returncode, p.stdout[-2000:]))
-    res = {}
-    with open(of) as f:
-        for line in f:
-            line = line.strip()
-            if line:
-                r = json.loads(line)
-                res[r.get("id")] = r
+    counter = [0]
+
+    def limit():
+        import resource
+        resource.setrlimit(resource.RLIMIT_AS, (24 << 30, 24 << 30))
+
+    import threading
+    lock = threading.Lock()
+
+    def run(batch, thr):
+        with lock:
+            counter[0] += 1
+            k = counter[0]
+        jf = os.path.join(wd, "%s.%d.ndjson" % (name, k))
+        of = os.path.join(wd, "%s.%d.out.ndjson" % (name, k))
+        with open(jf, "w") as f:
+            for j in batch:
+                f.write(json.dumps(j) + "\n")
+        p = subprocess.run(["timeout", str(timeout), VH, cmd, jf, of, str(thr)], stdout=subprocess.PIPE,
+                           stderr=subprocess.STDOUT, text=True, errors="replace", preexec_fn=limit)
+        got = {}
+        if os.path.exists(of):
+            for line in open(of):
+                line = line.strip()
+                if line:
+                    try:
+                        r = json.loads(line)
+                        got[r.get("id")] = r
+                    except Exception:
+                        pass
+        return p.returncode, p.stdout[-2000:], got
+
+    def solve(batch, thr):
+        rc, tail, got = run(batch, thr)
+        if rc == 0:
+            return got
+        if not isolate:
+            raise ToolError("harness %s failed rc=%d: %s" % (cmd, rc, tail))
+        # every job again in a process of its own (8 at a time, short time limit): the ones that kill or hang their
+        # process are identified, the others keep their results
+        from concurrent.futures import ThreadPoolExecutor
+        nonlocal timeout
+        timeout = min(timeout, 45)
+
+        def one(j):
+            rc1, tail1, got1 = run([j], 1)
+            if rc1 == 0 and j["id"] in got1:
+                return got1[j["id"]]
+            return {"id": j["id"], "died": rc1, "tail": tail1}
+        out = {}
+        with ThreadPoolExecutor(max_workers=8) as ex:
+            for r in ex.map(one, batch):
+                out[r["id"]] = r
+        return out
+
+    res = solve(list(jobs), threads)
     log("[harness] %s: %d jobs in %.1fs" % (cmd, len(jobs), time.time() - t0))
     return res
 
